@@ -168,6 +168,12 @@ CONTROLS = [
     ('t4-token-fast-path-forward', 'T4', 'syn', "Iter<'a>", [('sv-parser-syntaxtree/src/any_node.rs',
         '        if let Some(x) = ret.clone() {\n            let mut x = x.next();\n            x.0.reverse();\n            self.next.0.append(&mut x.0);\n        }',
         '        if let Some(RefNode::Symbol(Symbol { nodes: (locate, ws) })) = ret.clone() {\n            self.next.0.extend(ws.iter().map(RefNode::WhiteSpace));\n            self.next.0.push(RefNode::Locate(locate));\n        } else if let Some(x) = ret.clone() {\n            let mut x = x.next();\n            x.0.reverse();\n            self.next.0.append(&mut x.0);\n        }', 1)]),
+    ('x7-elsif-loop-break', 'X7', 'syn', 'Enter(IfdefDirective):chain-loop-left-early', [(PPF,
+        '                    } else if defines.contains_key(&elsifid) || is_predefined_text_macro(&ifid) {\n                        hit = true;\n                    } else {', '                    } else if defines.contains_key(&elsifid) || is_predefined_text_macro(&ifid) {\n                        hit = true;\n                        break;\n                    } else {', 1)]),
+    ('k2-current-version-first', 'K2', 'syn', 'current_version:outermost-version', [(PARSER + 'utils.rs',
+        'CURRENT_VERSION.with(|current_version| match current_version.borrow().last() {', 'CURRENT_VERSION.with(|current_version| match current_version.borrow().first() {', 1)]),
+    ('g14-streaming-take-till', 'G14', 'syn', 'streaming-parser', [(PARSER + 'source_text/library_source_text.rs',
+        'use crate::*;\n', 'use crate::*;\nuse nom::bytes::streaming::take_till1;\n', 1)]),
     ('x11-include-unguarded', 'X11', 'syn', 'open-unguarded', [(PPF, 'NodeEvent::Enter(RefNode::IncludeCompilerDirective(x)) if !ignore_include => {', 'NodeEvent::Enter(RefNode::IncludeCompilerDirective(x)) => {', 1)]),
     ('x12-search-reversed', 'X12', 'syn', 'search-order', [(PPF, '                    for include_path in include_paths {', '                    for include_path in include_paths.iter().rev() {', 1)]),
     ('p2-utf8-error-without-path', 'P2', 'syn', 'read-error', [(PPF, 'Err(Error::ReadUtf8(PathBuf::from(path.as_ref())))', 'Err(Error::ReadUtf8(PathBuf::new()))', 1)]),
